@@ -672,3 +672,80 @@ Proof.
   apply andb_true_iff in B as [Hb Hbs]. unfold bin_decode at 1. rewrite dec_enc by exact Hb.
   now rewrite IH.
 Qed.
+
+(* ------------------------------------------------------------------ error status, receiving side *)
+(* Status::from_header_map: the metadata of the status it builds is the header map minus the
+   three status headers, whatever happens to code / message / details *)
+Lemma from_header_map_md m st' :
+  from_header_map m = Some st' ->
+  forall k, hm_get_all (st_md st') k =
+    if bytes_eqb k hdr_grpc_status || bytes_eqb k hdr_grpc_message || bytes_eqb k hdr_grpc_status_details
+    then [] else hm_get_all m k.
+Proof.
+  unfold from_header_map. destruct (hm_get m hdr_grpc_status) as [cv|]; [|discriminate].
+  intros H k. rewrite <- get_all_remove3.
+  destruct (hm_get m hdr_grpc_message) as [hmsg|];
+    [destruct (utf8_valid (pct_decode hmsg))|];
+    (destruct (hm_get m hdr_grpc_status_details) as [hd|]; [destruct (dec hd)|]);
+    injection H as <-; reflexivity.
+Qed.
+
+(* every custom entry of an error status - repeated or not, ASCII or binary - is in the
+   metadata of the status the peer reads back, same values in the same order; what the peer sees
+   besides are the entries the base map m0 had under other names (the content-type of a
+   trailers-only response) *)
+Theorem status_metadata_received st m0 :
+  well_formed st ->
+  exists h st', add_header st m0 = Some h /\ status_received st m0 = Some st' /\
+    from_header_map h = Some st' /\
+    (forall k, is_reserved k = false -> k <> hdr_grpc_status_details ->
+       hm_get_all (st_md st') k = match hm_get_all (st_md st) k with [] => hm_get_all m0 k | l => l end) /\
+    (forall k, is_reserved k = true -> k <> hdr_grpc_status -> k <> hdr_grpc_message ->
+       hm_get_all (st_md st') k = hm_get_all m0 k) /\
+    hm_get_all (st_md st') hdr_grpc_status = [] /\ hm_get_all (st_md st') hdr_grpc_message = [] /\
+    hm_get_all (st_md st') hdr_grpc_status_details = [].
+Proof.
+  intros WF. destruct (add_header_wire st m0 WF) as (h & cv & Hh & Hcv & Hpt).
+  assert (GS : hm_get h hdr_grpc_status = Some cv).
+  { unfold hm_get. rewrite Hpt.
+    rewrite (set_by_false hdr_grpc_status_details (details_value st) hdr_grpc_status) by (right; discriminate).
+    assert (M : set_by hdr_grpc_message (msg_value st) hdr_grpc_status = false) by (destruct (msg_value st); reflexivity).
+    rewrite M, bytes_eqb_refl. reflexivity. }
+  assert (F : exists st', from_header_map h = Some st').
+  { unfold from_header_map. rewrite GS.
+    destruct (hm_get h hdr_grpc_message) as [hmsg|];
+      [destruct (utf8_valid (pct_decode hmsg))|];
+      (destruct (hm_get h hdr_grpc_status_details) as [hd|]; [destruct (dec hd)|]); eexists; reflexivity. }
+  destruct F as [st' F]. exists h, st'.
+  pose proof (from_header_map_md h st' F) as MD.
+  split; [exact Hh|]. split; [unfold status_received; now rewrite Hh|]. split; [exact F|].
+  split; [|split; [|split; [|split]]].
+  - intros k Hk Hd. rewrite MD.
+    assert (K1 : bytes_eqb k hdr_grpc_status = false).
+    { rewrite bytes_eqb_sym. apply (reserved_neq _ _ reserved_status_name Hk). }
+    assert (K2 : bytes_eqb k hdr_grpc_message = false).
+    { rewrite bytes_eqb_sym. apply (reserved_neq _ _ reserved_message_name Hk). }
+    assert (K3 : bytes_eqb k hdr_grpc_status_details = false).
+    { destruct (bytes_eqb k hdr_grpc_status_details) eqn:E; [|reflexivity]. apply bytes_eqb_eq in E. congruence. }
+    rewrite K1, K2, K3. cbn [orb]. rewrite Hpt.
+    rewrite (set_by_false _ _ _ (or_intror Hd)).
+    assert (M : set_by hdr_grpc_message (msg_value st) k = false).
+    { destruct (msg_value st); [|reflexivity]. apply (reserved_neq _ _ reserved_message_name Hk). }
+    rewrite M, (reserved_neq _ _ reserved_status_name Hk), Hk. reflexivity.
+  - intros k Hk Hs Hm. rewrite MD.
+    assert (K1 : bytes_eqb k hdr_grpc_status = false).
+    { destruct (bytes_eqb k hdr_grpc_status) eqn:E; [|reflexivity]. apply bytes_eqb_eq in E. congruence. }
+    assert (K2 : bytes_eqb k hdr_grpc_message = false).
+    { destruct (bytes_eqb k hdr_grpc_message) eqn:E; [|reflexivity]. apply bytes_eqb_eq in E. congruence. }
+    assert (K3 : bytes_eqb k hdr_grpc_status_details = false).
+    { rewrite bytes_eqb_sym. apply (not_reserved_neq _ _ not_reserved_details Hk). }
+    rewrite K1, K2, K3. cbn [orb]. rewrite Hpt.
+    assert (D : set_by hdr_grpc_status_details (details_value st) k = false).
+    { destruct (details_value st); [|reflexivity]. apply (not_reserved_neq _ _ not_reserved_details Hk). }
+    assert (M : set_by hdr_grpc_message (msg_value st) k = false).
+    { apply set_by_false. now right. }
+    rewrite D, M. rewrite bytes_eqb_sym in K1. rewrite K1, Hk. reflexivity.
+  - rewrite MD, bytes_eqb_refl. reflexivity.
+  - rewrite MD, bytes_eqb_refl. now rewrite orb_true_r.
+  - rewrite MD, bytes_eqb_refl. now rewrite !orb_true_r.
+Qed.
